@@ -95,3 +95,43 @@ def bounded(seed: int = 0, seeds: Any = None, **_: Any) -> Dict[str, Any]:
                                      "stderr_a": ref[2][:300], "stderr_b": got[2][:300]})
     return {"cases": n, "distinct": len(cases), "failures": failures,
             "samples": [{"target": c[0], "model": c[2], "hash_seeds": seeds} for c in cases[:2]]}
+
+
+# ---------------------------------------------------------------------------------------------------------------
+# all eight targets on two richer meta-models (inheritance, enumerations, constrained primitives, patterns, constant
+# sets, invariants): same files, stdout, stderr and exit status under different hash seeds
+
+def _one(args: Tuple[str, str, str]) -> Tuple[str, str, List[Tuple[int, str, str, str]]]:
+    name, text, target = args
+    from native import c02
+    with tempfile.TemporaryDirectory() as d:
+        root = pathlib.Path(d)
+        (root / "snippets").mkdir()
+        for fn, content in c02.SNIPPETS.items():
+            (root / "snippets" / fn).write_text(content, encoding="utf-8")
+        model = root / "meta_model.py"
+        model.write_text(text, encoding="utf-8")
+        return name, target, [_run(model, target, root / "snippets", s) for s in ("0", "1", "12345")]
+
+
+def all_targets(seed: int = 0, jobs: int = 8, **_: Any) -> Dict[str, Any]:
+    import multiprocessing as mp
+    from native import c02, c11
+    targets = ["cpp", "csharp", "golang", "java", "jsonschema", "python", "typescript", "xsd"]
+    tasks = [("base model 2 of native/c02.py", c02.BASE2, t) for t in targets]
+    tasks += [("harness model of native/c11.py", c11.MODEL, t) for t in targets if t not in ("cpp", "java")]
+    with mp.get_context("fork").Pool(jobs) as pool:
+        res = pool.map(_one, tasks, chunksize=1)
+    failures: List[Any] = []
+    for name, target, runs in res:
+        first = runs[0]
+        for k, r in enumerate(runs[1:], start=1):
+            if r != first:
+                what = [lbl for lbl, a, b in zip(("exit status", "stdout", "stderr", "files"), first, r) if a != b]
+                failures.append({"model": name, "target": target, "hash_seeds": ["0", ("1", "12345")[k - 1]],
+                                 "observed": f"{', '.join(what)} differ between two runs on the same inputs"})
+                break
+        if first[0] != 0:
+            failures.append({"model": name, "target": target, "observed": f"the run failed: {first[2][:300]}"})
+    return {"cases": len(tasks) * 3, "distinct": len(tasks), "failures": failures[:6], "exhaustive": False,
+            "samples": [{"targets": targets, "seeds": ["0", "1", "12345"]}]}
